@@ -220,3 +220,97 @@ pub fn drive_c17_stream(out: &mut dyn std::io::Write, which: &str) {
         _ => panic!("harness: stream target"),
     }
 }
+
+/// One `update` call of 2^32 + extra bytes (after a `prefix`-byte update), against the same message fed in < 1 GiB pieces:
+/// the per-call arithmetic on `data.len()` (block counts, bit counts) must not depend on how the message is cut. The one-call
+/// instance is checkpointed (chaining value, counter, buffered bytes) like a streamed one, so the specification recomputes its
+/// digest from the checkpoint and the counter law (counter = amount fed) is checked; the chunk-fed instance supplies the
+/// reference chaining value / counter / digest that must be identical.
+macro_rules! big_one {
+    ($out:ident, $T:ty, $alg:expr, $prefix:expr, $extra:expr, $counter:expr, $nl:expr, $chainbytes:expr, $first:expr, $ev:expr, $tag:expr) => {{
+        let prefix: usize = $prefix;
+        let big: usize = (1usize << 32) + $extra;
+        let zeros: Vec<u8> = vec![0u8; big]; // never written: backed by the kernel's shared zero page
+        let pre: Vec<u8> = (0..prefix).map(|i| (i * 3 + 1) as u8).collect();
+        let more: Vec<u8> = (0..77usize).map(|i| (i * 29 + 1) as u8).collect();
+        let run = |onecall: bool| {
+            guarded(|| {
+                let mut h = <$T>::default();
+                Digest::update(&mut h, &pre);
+                if onecall {
+                    Digest::update(&mut h, &zeros[..]);
+                } else {
+                    let step = (1usize << 30) - 24;
+                    let mut off = 0usize;
+                    while off < big {
+                        let n = std::cmp::min(step, big - off);
+                        Digest::update(&mut h, &zeros[off..off + n]);
+                        off += n;
+                    }
+                }
+                let pos = h.verif_buffer_pos();
+                let counter: u128 = $counter(&h);
+                let chain: Vec<u8> = $chainbytes(&h);
+                let first: bool = $first(&h);
+                Digest::update(&mut h, &more);
+                (pos, counter, chain, first, Digest::finalize(h).to_vec())
+            })
+        };
+        let (a, b) = std::thread::scope(|s| {
+            let ta = s.spawn(|| run(true));
+            let tb = s.spawn(|| run(false));
+            (ta.join().unwrap_or_else(|_| Err("thread".to_string())), tb.join().unwrap_or_else(|_| Err("thread".to_string())))
+        });
+        let n = <$T as Digest>::output_size();
+        let mut e = Ev::new(0, $ev).s("alg", $alg).i("n", n as i64).s("tag", $tag);
+        match (a, b) {
+            (Ok((pos, counter, chain, first, o)), Ok((pos2, counter2, chain2, _f2, o2))) => {
+                let mut rest = vec![0u8; pos];
+                rest.extend_from_slice(&more);
+                e = e.limbs("base", counter, $nl).limbs("fed", (prefix + big - pos) as u128, 8).i("pos", pos as i64).b("first", first)
+                    .bytes("chain", &chain).bytes("rest", &rest).bytes("out", &o)
+                    .limbs("base_ref", counter2, $nl).i("pos_ref", pos2 as i64).bytes("chain_ref", &chain2).bytes("out_ref", &o2).s("res", "ok");
+            }
+            (a, b) => {
+                let msg = format!("panic:one-call {:?} chunks {:?}", a.err(), b.err());
+                e = e.limbs("base", 0, $nl).limbs("fed", 0, 8).i("pos", 0).b("first", false).bytes("chain", &[]).bytes("rest", &[]).bytes("out", &[])
+                    .limbs("base_ref", 0, $nl).i("pos_ref", 0).bytes("chain_ref", &[]).bytes("out_ref", &[]).s("res", &sanitize(&msg));
+            }
+        }
+        e.emit($out);
+    }};
+}
+
+pub fn drive_c17_big(out: &mut dyn std::io::Write, which: &str) {
+    let be32 = |w: [u32; 8]| -> Vec<u8> { w.iter().flat_map(|x| x.to_be_bytes()).collect() };
+    let be64 = |w: [u64; 8]| -> Vec<u8> { w.iter().flat_map(|x| x.to_be_bytes()).collect() };
+    match which {
+        "blake256" => big_one!(out, blake_hash::Blake256, "Blake256", 0, 69, |h: &blake_hash::Blake256| { let t = h.verif_counter(); (t.0 as u128) | ((t.1 as u128) << 32) }, 4,
+            |h: &blake_hash::Blake256| be32(h.verif_chain()), |_h: &blake_hash::Blake256| false, "stream", "4GiB-one-call"),
+        "blake224" => big_one!(out, blake_hash::Blake224, "Blake224", 63, 5, |h: &blake_hash::Blake224| { let t = h.verif_counter(); (t.0 as u128) | ((t.1 as u128) << 32) }, 4,
+            |h: &blake_hash::Blake224| be32(h.verif_chain()), |_h: &blake_hash::Blake224| false, "stream", "4GiB-one-call"),
+        "blake512" => big_one!(out, blake_hash::Blake512, "Blake512", 127, 130, |h: &blake_hash::Blake512| { let t = h.verif_counter(); (t.0 as u128) | ((t.1 as u128) << 64) }, 8,
+            |h: &blake_hash::Blake512| be64(h.verif_chain()), |_h: &blake_hash::Blake512| false, "stream", "4GiB-one-call"),
+        "blake384" => big_one!(out, blake_hash::Blake384, "Blake384", 1, 0, |h: &blake_hash::Blake384| { let t = h.verif_counter(); (t.0 as u128) | ((t.1 as u128) << 64) }, 8,
+            |h: &blake_hash::Blake384| be64(h.verif_chain()), |_h: &blake_hash::Blake384| false, "stream", "4GiB-one-call"),
+        "jh256" => big_one!(out, jh_x86_64::Jh256, "Jh256", 63, 69, |h: &jh_x86_64::Jh256| h.verif_counter() as u128, 8,
+            |h: &jh_x86_64::Jh256| h.verif_chain().to_vec(), |_h: &jh_x86_64::Jh256| false, "stream", "4GiB-one-call"),
+        "jh512" => big_one!(out, jh_x86_64::Jh512, "Jh512", 0, 1, |h: &jh_x86_64::Jh512| h.verif_counter() as u128, 8,
+            |h: &jh_x86_64::Jh512| h.verif_chain().to_vec(), |_h: &jh_x86_64::Jh512| false, "stream", "4GiB-one-call"),
+        "skein256" => big_one!(out, skein_hash::Skein256<U32>, "Skein256", 31, 33, |h: &skein_hash::Skein256<U32>| h.verif_counter() as u128, 4,
+            |h: &skein_hash::Skein256<U32>| h.verif_chain().to_vec(), |h: &skein_hash::Skein256<U32>| h.verif_first(), "stream", "4GiB-one-call"),
+        "skein512" => big_one!(out, skein_hash::Skein512<U64>, "Skein512", 0, 64, |h: &skein_hash::Skein512<U64>| h.verif_counter() as u128, 4,
+            |h: &skein_hash::Skein512<U64>| h.verif_chain().to_vec(), |h: &skein_hash::Skein512<U64>| h.verif_first(), "stream", "4GiB-one-call"),
+        "skein1024" => big_one!(out, skein_hash::Skein1024<U128>, "Skein1024", 127, 2, |h: &skein_hash::Skein1024<U128>| h.verif_counter() as u128, 4,
+            |h: &skein_hash::Skein1024<U128>| h.verif_chain().to_vec(), |h: &skein_hash::Skein1024<U128>| h.verif_first(), "stream", "4GiB-one-call"),
+        "groestl256" => big_one!(out, groestl_aesni::Groestl256, "Groestl256", 63, 69, |h: &groestl_aesni::Groestl256| h.verif_counter() as u128, 4,
+            |_h: &groestl_aesni::Groestl256| Vec::<u8>::new(), |_h: &groestl_aesni::Groestl256| false, "big", "4GiB-one-call"),
+        "groestl224" => big_one!(out, groestl_aesni::Groestl224, "Groestl224", 0, 64, |h: &groestl_aesni::Groestl224| h.verif_counter() as u128, 4,
+            |_h: &groestl_aesni::Groestl224| Vec::<u8>::new(), |_h: &groestl_aesni::Groestl224| false, "big", "4GiB-one-call"),
+        "groestl512" => big_one!(out, groestl_aesni::Groestl512, "Groestl512", 1, 127, |h: &groestl_aesni::Groestl512| h.verif_counter() as u128, 4,
+            |_h: &groestl_aesni::Groestl512| Vec::<u8>::new(), |_h: &groestl_aesni::Groestl512| false, "big", "4GiB-one-call"),
+        "groestl384" => big_one!(out, groestl_aesni::Groestl384, "Groestl384", 100, 3, |h: &groestl_aesni::Groestl384| h.verif_counter() as u128, 4,
+            |_h: &groestl_aesni::Groestl384| Vec::<u8>::new(), |_h: &groestl_aesni::Groestl384| false, "big", "4GiB-one-call"),
+        _ => panic!("harness: big target"),
+    }
+}
